@@ -12,6 +12,8 @@
      25        comments (shared body menu) between and around the pieces of "a" + 'x' + "b"
      26-29     the edges of two- and three-line strings: indentation x trailing blanks x content on the first, the inner
                and the last line, each value in three spellings (double-quoted, single-quoted, "head" + 'last line')
+     30        several statements of one kind with long, equally long, nearly equal arguments (in one module, and with
+               the siblings in a module parsed before with the same interners)
      100, 101  NRand / 2 layouts each, drawn at random from all the menus (TLC -seed)
    Size selects the menus: "quick" or "thorough".                                 *)
 EXTENDS YangString, Json, SequencesExt, FiniteSets, TLC
@@ -171,6 +173,30 @@ Edges2(p) == UNION {Spellings(26, Pres[p], src) : src \in Edge2(EdgeInd(QC(Pres[
 Edges3(p) == LET q == QC(Pres[p])  I == EdgeInd(q) IN
              UNION {Spellings(27, Pres[p], src) : src \in (IF Thorough THEN Edge3(I, I) ELSE Edge3({<< >>, Spaces(q), Spaces(q + 2), <<TAB>>}, {<< >>, Spaces(q + 2)}))}
 
+\* family 30: arguments are decoded per statement: several statements of one kind in one module whose arguments are long
+\* (around 64, 96, 128, 256 bytes), equally long, and differ only at the end, only in the middle or only at the start;
+\* every statement is a vector of its own (same text, its own path and value).  Also with the sibling statements in
+\* another module parsed first with the same interners (field `before`).
+LongLens == IF Thorough THEN {60, 63, 64, 65, 90, 95, 96, 97, 98, 100, 127, 128, 129, 160, 200, 255, 256, 257, 300, 520}
+            ELSE {64, 96, 97, 100, 128, 129, 200, 257}
+LongBase(n) == [i \in 1..n |-> 97 + (i % 23)]
+LongArgs(n) == LET b == LongBase(n) IN <<b, [b EXCEPT ![n] = 90], [b EXCEPT ![n \div 2] = 90], [b EXCEPT ![1] = 90], [b EXCEPT ![n - 1] = 89]>>
+\* spelling of the k-th long argument: plain double-quoted, or cut into two concatenated pieces
+LongPieces(v, k) == IF k % 2 = 1 THEN <<D(v)>> ELSE <<S(SubSeq(v, 1, 40)), D(SubSeq(v, 41, Len(v)))>>
+RECURSIVE LongStmts(_, _, _, _)
+LongStmts(text, kw, args, k) ==
+  IF k > Len(args) THEN text
+  ELSE LongStmts(RenderArg(text \o C("  ") \o kw \o <<SP>>, LongPieces(args[k], k), <<C(" + ")>>).text \o <<SEMI, LF>>, kw, args, k + 1)
+LongVec(kw, n, k, split) ==
+  LET args == LongArgs(n)
+      whole == LongStmts(HeadTxt, kw, args, 1) \o C("}") \o <<LF>>
+      others == LongStmts(HeadTxt, kw, [j \in 1..(k - 1) |-> args[j]], 1) \o C("}") \o <<LF>>
+      alone == RenderArg(HeadTxt \o C("  ") \o kw \o <<SP>>, LongPieces(args[k], k), <<C(" + ")>>).text \o <<SEMI, LF>> \o C("}") \o <<LF>>
+  IN [fam |-> 30, text |-> IF split THEN alone ELSE whole, before |-> IF split THEN others ELSE << >>,
+      path |-> IF split THEN <<3>> ELSE <<2 + k>>, expect |-> args[k], judged |-> TRUE, feat |-> Feat(LongPieces(args[k], k)),
+      sane |-> TRUE]
+LongOnes(u_) == {LongVec(C("m:e"), n, k, sp) : n \in LongLens, k \in 1..5, sp \in BOOLEAN}
+
 \* family 100: everything at random
 RE(seq) == seq[RandomElement(1..Len(seq))]
 RandDq(q) == LET n == RandomElement(1..4)  e == RE(Eols) IN
@@ -184,8 +210,8 @@ Random(u_) == {RandVec(k) : k \in 1..(NRand \div 2)}
 
 \* (the big sets take a dummy parameter: TLC evaluates every parameterless definition once at start-up, single-threaded)
 Cases == IF fam <= Len(Pres) THEN TwoLines(fam)
-         ELSE IF fam = 20 THEN ThreeLines(0) ELSE IF fam = 21 THEN Plain(0) ELSE IF fam = 22 THEN Concat2(0) ELSE IF fam = 23 THEN Concat3(0) ELSE IF fam = 24 THEN Escapes(0) ELSE IF fam = 25 THEN CommentJoins(0) ELSE IF fam = 26 THEN Edges2(1) ELSE IF fam = 27 THEN Edges2(5) ELSE IF fam = 28 THEN Edges3(1) ELSE IF fam = 29 THEN Edges3(5) ELSE Random(0)
-GInit == fam \in PreFams \cup {20, 21, 22, 23, 24, 25, 26, 27, 28, 100, 101} \cup (IF Thorough THEN {29} ELSE {}) /\ done = FALSE
+         ELSE IF fam = 20 THEN ThreeLines(0) ELSE IF fam = 21 THEN Plain(0) ELSE IF fam = 22 THEN Concat2(0) ELSE IF fam = 23 THEN Concat3(0) ELSE IF fam = 24 THEN Escapes(0) ELSE IF fam = 25 THEN CommentJoins(0) ELSE IF fam = 26 THEN Edges2(1) ELSE IF fam = 27 THEN Edges2(5) ELSE IF fam = 28 THEN Edges3(1) ELSE IF fam = 29 THEN Edges3(5) ELSE IF fam = 30 THEN LongOnes(0) ELSE Random(0)
+GInit == fam \in PreFams \cup {20, 21, 22, 23, 24, 25, 26, 27, 28, 30, 100, 101} \cup (IF Thorough THEN {29} ELSE {}) /\ done = FALSE
 GNext == /\ ~done /\ done' = TRUE /\ UNCHANGED fam
          /\ ndJsonSerialize("vec_" \o ToString(fam) \o ".ndjson", SetToSeq(Cases))
 =============================================================================
